@@ -206,7 +206,7 @@ def date_dict_legacy(date, mode):
     off = bytes.fromhex(off)
     ts = {"seconds": s, "microseconds": us}
     if mode == "both-keys":
-        return {"timestamp": ts, "offset_bytes": off, "offset": 17, "negative_utc": True}
+        return {"timestamp": ts, "offset_bytes": off, "offset": 17, "negative_utc": False}
     if mode == "ts-int":
         return {"timestamp": s, "offset_bytes": off} if us == 0 else None
     if mode == "no-us":
@@ -234,3 +234,13 @@ def nofullname_split(fn, i):
     name, email = [(fn, None), (None, fn), (fn, b""), (b"", fn), (fn[:half], fn[half:]), (b"", b"")][i % NOFULLNAME_SPLITS]
     parts = ([name] if name is not None else []) + ([b"<" + email + b">"] if email is not None else [])
     return name, email, b" ".join(parts)
+
+
+class BytesSub(bytes):
+    """a bytes subclass: equal to, and hashing like, the plain value"""
+
+
+def mk_person_from_fullname(fullname_hex):
+    """the person as Person.from_fullname guesses it (fullname kept verbatim, name / email derived)"""
+    from swh.model.model import Person
+    return None if fullname_hex is None else Person.from_fullname(bytes.fromhex(fullname_hex))
